@@ -344,6 +344,16 @@ C12(sn, calls) == C12Raw(Eff(sn, calls), calls)
 C13(sn, calls, res) == C13Raw(Eff(sn, calls), calls, res)
 C14(sn, calls, res) == C14Raw(Eff(sn, calls), calls, res)
 
+(* C18 per reconcile: a reconcile that runs to the end without an API error has adopted (and label-synced) every         *)
+(* revision that carries the upgrade marker for this set and has no controller - however many of the others it had      *)
+(* label-synced before: the marked revisions are never lost from sight                                                  *)
+C18S(sn, calls, res) ==
+  (res = "ok" /\ FaultFree(calls) /\ sn.set.cached /\ ~sn.set.paused /\ ~sn.set.deleting /\ sn.set.selectorOK
+     /\ sn.fresh.exists /\ sn.fresh.sameUid /\ ~sn.fresh.deleting) =>
+    \A x \in SeqToSet(sn.revs) : (x.marker /\ x.owner = "none") =>
+        /\ \E k \in Idx(calls) : IsRevPatch(calls[k]) /\ Det(calls[k]) = "adopt" /\ Name(calls[k]) = x.name
+        /\ (~x.sel => \E k \in Idx(calls) : IsRevUpdate(calls[k]) /\ Det(calls[k]) = "labels" /\ Name(calls[k]) = x.name)
+
 (* C09 - a failed call is reported (per-reconcile clauses; recovery is a history clause) *)
 LaterOK(calls, k, P(_)) == \E j \in (k + 1)..Len(calls) : P(calls[j]) /\ Name(calls[j]) = Name(calls[k]) /\ OK(calls[j])
 \* failures the controller may legitimately absorb without failing the reconcile
